@@ -48,7 +48,8 @@ PASS = ("Option::unwrap_or", "Option::unwrap", "Option::map", "Option::copied", 
         "Into<U>>::into", "Clone>::clone", "cmp::min", "cmp::max", "Ord::min", "Ord::max", "Option::and_then", "Option::flatten", "Option::then",
         "<impl bool>::then", "Option::or", "Option::or_else", "Deref>::deref", "Option::as_ref", "Iterator::map", "Iterator>::next", "Iterator::filter_map",
         "Iterator::flatten", "Option::ok_or", "Option::expect", "std::convert::From<T>>::from", "FromResidual",
-        "[T]>::first", "[T]>::last", "[T]>::get", "Iterator::filter", "Iterator::enumerate", "Iterator>::find", "Option::filter")
+        "[T]>::first", "[T]>::last", "[T]>::get", "Iterator::filter", "Iterator::enumerate", "Iterator>::find", "Option::filter",
+        "Iterator::find_map", "<impl bool>::then_some", "Iterator::map_while", "Iterator::last", "Iterator::nth")
 # calls that produce strings / iterators over them, not offsets: nothing to check at this node
 IGNORE = ("<impl str>::split_inclusive", "<impl str>::split", "<impl str>::lines", "<impl str>::chars", "<impl str>::char_indices", "<impl str>::trim",
           "<impl str>::trim_end", "<impl str>::trim_start", "[T]>::iter", "IntoIterator>::into_iter", "Index<I> for str>::index", "Index<I> for [T]>::index",
